@@ -253,6 +253,13 @@ def run_script_sym(it, script, opts=None):
             if cur[0] is not None:
                 cur[0].events.append(("timewrite", T(args[1])))
         it.fn_hooks[wname[0]] = hook
+    tname = it.P.find_def("GlobalScheduler", None, "time")
+    if tname:
+        def thook(itp, fn, args):
+            # time reads made by the scheduling functions (the leaf futures' own reads are flagged and skipped)
+            if cur[0] is not None and not itp.env.get("leaf_time_read"):
+                cur[0].events.append(("timeread",))
+        it.fn_hooks[tname[0]] = thook
 
     # effects
     def make_effect(i, eff, owner_origin):
@@ -467,6 +474,14 @@ def oracle(script, P, obs, ck, opts=None):
 
         # ---- scheduling / cancellation commands
         if op == "sched":
+            held = False
+            for ev in o.events:
+                if ev[0] == "lock":
+                    held = True
+                elif ev[0] == "unlock":
+                    held = False
+                elif ev[0] == "timeread":
+                    ck.check(held, "C08:request-validated-under-the-queue-lock", f"cmd {i}: the scheduling function read the time without holding the queue lock")
             do_sched(i, cmd, f"c{i}", o.res, cmd["origin"], "")
             ck.check(t_eq(o.time, t_before), "C01:time-unchanged-by-non-stepping", f"cmd {i}")
             continue
@@ -487,6 +502,7 @@ def oracle(script, P, obs, ck, opts=None):
         outofsync = None
         oos_fatal = None        # z3 Bool: a lag above the tolerance was reported by a synchronize of this command
         panicked = False
+        lock_held = False
         last_fire_cmd_step = None
         last_sync_in_cmd = None
         proc_entry = None
@@ -494,8 +510,19 @@ def oracle(script, P, obs, ck, opts=None):
             proc_entry = dict(id=cmd["id"], d=t_before, origin=-1, seq=0, period=None, key=None, fired=False, cancelled=False)
         for ev in o.events:
             k = ev[0]
+            if k == "lock":
+                lock_held = True
+            elif k == "unlock":
+                lock_held = False
+            elif k == "timeread":
+                # C08 (race-freedom): the time a request is validated against is read with the scheduler queue locked
+                ck.check(lock_held, "C08:request-validated-under-the-queue-lock", f"cmd {i}: a scheduling function read the time without holding the queue lock")
             if k == "timewrite":
                 t = ev[1]
+                # C08 (race-freedom): the stepping thread advances the time only while it holds the scheduler queue lock,
+                # so that no request can be validated against a stale time in between
+                if op in ("step", "until"):
+                    ck.check(lock_held, "C08:time-advances-under-the-queue-lock", f"cmd {i} ({op}): the simulation time was written without holding the queue lock")
                 if last_write_t is not None:
                     ck.check(t_le(last_write_t, t), "C01:time-never-decreases", f"cmd {i}")
                 ck.check(t_le(t_before, t), "C01:time-never-decreases", f"cmd {i}")
